@@ -10,13 +10,14 @@ import (
 )
 
 type Opts struct {
-	Sugar  bool // ? * + *! @list
-	Prec   bool // @left/@right qualifiers anywhere (legitimate and not)
-	Err    bool // @error terms
-	Shapes bool // mix in the shape library
-	Styles bool // vary the rendering
-	MaxTok int
-	MaxRul int
+	Sugar    bool // ? * + *! @list
+	Prec     bool // @left/@right qualifiers anywhere (legitimate and not)
+	Err      bool // @error terms
+	ErrSugar bool // @error? / @error* (needs Err)
+	Shapes   bool // mix in the shape library
+	Styles   bool // vary the rendering
+	MaxTok   int
+	MaxRul   int
 	Guarded  bool // every production starts with a token unique among its rule's alternatives (LL(1)-like, mostly conflict-free)
 	SugarPct int  // probability of sugar on a term (default 30)
 }
@@ -39,6 +40,9 @@ func anyTerm(t *rapid.T, g *G, nR int, o Opts) Term {
 	base := symTerm(t, g, nR)
 	roll := ri(t, 0, 99, "sugar")
 	if o.Err && roll >= 93 {
+		if o.ErrSugar && roll >= 98 {
+			return Term{Kind: []Kind{KOpt, KOpt, KStar}[ri(t, 0, 2, "esk")], Name: "ERROR", IsTok: true}
+		}
 		return Term{Kind: KErr}
 	}
 	pct := o.SugarPct
@@ -448,7 +452,7 @@ func HasErr(g *G) bool {
 	for _, r := range g.Rules {
 		for _, p := range r.Prods {
 			for _, tm := range p.Terms {
-				if tm.Kind == KErr {
+				if tm.Kind == KErr || tm.Name == "ERROR" {
 					return true
 				}
 			}
@@ -689,7 +693,8 @@ func productive(g *G) bool {
 	for _, t := range g.Toks {
 		prod[t] = true
 	}
-	known := map[string]bool{}
+	known := map[string]bool{"ERROR": true}
+	prod["ERROR"] = true
 	for _, t := range g.Toks {
 		known[t] = true
 	}
